@@ -171,9 +171,17 @@ def compress(eng, st, o, m):
     if o.ndim != 1:
         raise OutOfSubset('boolean mask on 2-D array')
     # symbolic length: phi strictly increasing onto the true cells, rank its inverse (DESIGN 2.3)
+    cached = eng.mask_cache.get(id(m))
+    if cached is not None and cached[0] is m:
+        _, cnt, phi, rank = cached
+        res = ArrV((cnt,), lambda j, o=o, phi=phi: o.at(phi(to_z3(j))), o.dtype)
+        res_ref = new_ref(st, res)
+        eng.compress_info[res_ref.oid] = {'src': o, 'mask': m, 'phi': phi, 'rank': rank, 'cnt': cnt}
+        return res_ref
     cnt = z3.Int(fresh_name('cnt'))
     phi = z3.Function(fresh_name('phi'), z3.IntSort(), z3.IntSort())
     rank = z3.Function(fresh_name('rank'), z3.IntSort(), z3.IntSort())
+    eng.mask_cache[id(m)] = (m, cnt, phi, rank)
     k, k2, i = z3.Int(fresh_name('k')), z3.Int(fresh_name('k2')), z3.Int(fresh_name('i'))
     mk = lambda t: to_z3(to_bool(m.at(t)))
     st.assume(and_(cnt >= 0, cnt <= n))
@@ -289,7 +297,7 @@ def reduce_minmax(eng, st, v, name):
     yield r, st
 
 
-def reduce_sum(eng, st, a):
+def reduce_sum(eng, st, a, ref=None):
     n = a.shape[0]
     if a.ndim == 1 and isinstance(n, int):
         r = 0 if a.dtype != 'real' else 0.0
@@ -303,7 +311,12 @@ def reduce_sum(eng, st, a):
                 r = add(r, a.at(i, j))
         return r
     from . import sums
-    return sums.sum_of(eng, st, a)
+    t = sums.sum_of(eng, st, a)
+    info = eng.compress_info.get(ref.oid) if ref is not None else None
+    if info is not None and 'phi' in info and info['src'].ndim == 1:
+        eng.trusted_facts.add('model fact: the sum over a[mask] equals the sum over where(mask, a, 0) (boolean-mask selection, conformance-tested)')
+        st.assume(sums.compress_sum_fact(info['src'], info['mask'], a))
+    return t
 
 
 def reduce_anyall(eng, st, a, name):
@@ -371,7 +384,7 @@ def arr_method(eng, st, ref, o, name, args, kwargs):
     elif name == 'sum':
         if args or kwargs:
             raise OutOfSubset('axis argument of sum')
-        yield reduce_sum(eng, st, o), st
+        yield reduce_sum(eng, st, o, ref), st
     elif name in ('any', 'all'):
         yield reduce_anyall(eng, st, o, name), st
     elif name == 'copy':
@@ -437,7 +450,7 @@ def np_sum(eng, st, args, kwargs):
             raise OutOfSubset('np.sum with keyword arguments')
         yield reduce_axis(eng, st, a, ax, 'sum'), st
         return
-    yield reduce_sum(eng, st, a), st
+    yield reduce_sum(eng, st, a, args[0] if isinstance(args[0], Ref) else None), st
 
 
 @lib('numpy.any')
@@ -469,7 +482,12 @@ def np_array(eng, st, args, kwargs):
         tn = t.name if isinstance(t, FnV) else str(t)
         dt = 'real' if 'float' in tn else ('int' if 'int' in tn else ('bool' if 'bool' in tn else dt))
     f = {'real': to_real, 'int': to_num, 'bool': to_bool, 'obj': lambda x: x}[dt] if dt != a.dtype else (lambda x: x)
-    yield new_ref(st, ArrV(a.shape, lambda *i, a=a, f=f: f(a.at(*i)), dt)), st
+    res = new_ref(st, ArrV(a.shape, lambda *i, a=a, f=f: f(a.at(*i)), dt))
+    info = eng.compress_info.get(args[0].oid) if isinstance(args[0], Ref) else None
+    if info is not None and callable(info.get('pointwise')) and 'phi' in info:
+        pw = info['pointwise']
+        eng.compress_info[res.oid] = dict(info, src=ArrV(info['src'].shape, lambda i, pw=pw, f=f: f(pw(i)), dt), pointwise=lambda i, pw=pw, f=f: f(pw(i)))
+    yield res, st
 
 
 @lib('numpy.maximum')
